@@ -352,6 +352,45 @@ def run(ctx):
         cursor_check(s_.ops[1], s_.bb, 'available-column cursor', 'the destination column for an available data column', s_.loc)
     r.require_min(2)
 
+    # ---------------- R19h rows are only accumulated into
+    r = ctx.rule('R19h', 'get_inverse_rows: inside the row-building loops the rows are only XOR-accumulated (no copy / overwrite of a row)',
+                 'a row already holds the contributions of earlier columns: replacing it (memcpy for a coefficient of 1) discards them and the rebuilt parity is wrong')
+    from ..loops import loops_of as _lo19
+    LS19 = _lo19(P, g, pcg)
+    # the loop over the columns of a missing parity row (and the row combination nested in it); the rows of missing data are plain
+    # copies of inverse rows, written by an earlier loop
+    inloop = set(column_loop[0].body) if column_loop[0] is not None else set()
+    roots19 = {r_ for r_ in dest_roots if r_}
+    nw19, bad19 = 0, None
+    for i in g.insts():
+        if i.bb not in inloop:
+            continue
+        if i.op == 'store':
+            Li = innermost(LS19, i.bb)
+            rt = (Li.pc if Li is not None else pcg).ptr(i.ops[1])[0]
+            if rt in roots19:
+                nw19 += 1
+                vd = g.defs.get(strip_int_casts(g, i.ops[0]))
+                acc = vd is not None and vd.op == 'xor' and any(
+                    (g.defs.get(strip_int_casts(g, o)) is not None and g.defs[strip_int_casts(g, o)].op == 'load' and g.defs[strip_int_casts(g, o)].ops[0] == i.ops[1]) for o in vd.ops)
+                if not acc:
+                    bad19 = bad19 or (i, 'a store that does not combine with the previous content')
+        elif i.op == 'call' and (i.callee or '').startswith(('@llvm.memcpy', '@llvm.memset', '@llvm.memmove')):
+            Li = innermost(LS19, i.bb)
+            rt = (Li.pc if Li is not None else pcg).ptr(i.ops[0])[0]
+            if rt in roots19:
+                nw19 += 1
+                bad19 = bad19 or (i, i.callee[1:].split('.')[1])
+    if bad19:
+        r.fail('inverse rows are accumulated', func=g.name, sig=f'row overwritten by {bad19[1][:40]}', loc=bad19[0].loc,
+               msg=f'inside the loops of get_inverse_rows a row of the result is written by {bad19[1]} (line {bad19[0].line}) instead of being XOR-ed into: '
+                   'what earlier columns contributed to that row is lost')
+    elif nw19:
+        r.ok(f'{nw19} writes into the rows inside the loops, all of the form row[x] ^= ...', func=g.name, loc=g.mod.src)
+    else:
+        r.undecided('inverse rows are accumulated', loc=g.mod.src, msg='no write into the rows found inside the loops')
+    r.require_min(1)
+
     # ---------------- shared rules on this unit
     r = ctx.rule('R16a', 'ownership typestate of isa_l_common.c: no leak / double free on any path')
     c16.run_r16a(ctx, P, r, only_fn=set(m.functions))
